@@ -307,6 +307,77 @@ func checkChunkChannels(c *Ctx, p *Program, fn *ssa.Function) {
 		}
 	}
 	c.Ob("C04.join", pkg, fk, "producers-spawned", p.Pos(fn.Pos()), nGo >= 2, fk+": chunk producers are not spawned as goroutines")
+	// the collector of the halves of a split chunk has a channel of its own: a channel from which a
+	// goroutine spawned in the chunk loop receives is made in the same iteration (one made before
+	// the loop is shared by the collectors of all overweight chunks, which then take each other's
+	// partial sums)
+	okOwn := true
+	posOwn := p.Pos(fn.Pos())
+	loops := loopsOf(fn)
+	for _, b := range fn.Blocks {
+		for _, in := range b.Instrs {
+			g, ok := in.(*ssa.Go)
+			if !ok {
+				continue
+			}
+			mc, ok := g.Call.Value.(*ssa.MakeClosure)
+			if !ok {
+				continue
+			}
+			cf, _ := mc.Fn.(*ssa.Function)
+			if cf == nil {
+				continue
+			}
+			// innermost loop containing the go statement
+			var inner *loopInfo
+			for _, l := range loops {
+				if l.blocks[b.Index] && (inner == nil || len(l.blocks) < len(inner.blocks)) {
+					inner = l
+				}
+			}
+			if inner == nil {
+				continue
+			}
+			for i, fv := range cf.FreeVars {
+				// does the closure receive from this captured channel?
+				recvs := false
+				for _, cb := range cf.Blocks {
+					for _, ci := range cb.Instrs {
+						if u, isU := ci.(*ssa.UnOp); isU && u.Op == token.ARROW {
+							if ld, isLd := u.X.(*ssa.UnOp); isLd && ld.X == ssa.Value(fv) {
+								recvs = true
+							}
+							if u.X == ssa.Value(fv) {
+								recvs = true
+							}
+						}
+					}
+				}
+				if !recvs || i >= len(mc.Bindings) {
+					continue
+				}
+				// the captured variable's cell and the channel stored in it
+				var made *ssa.MakeChan
+				bind := mc.Bindings[i]
+				if m, isM := bind.(*ssa.MakeChan); isM {
+					made = m
+				} else if al, isAl := bind.(*ssa.Alloc); isAl && al.Referrers() != nil {
+					for _, r := range *al.Referrers() {
+						if st, isSt := r.(*ssa.Store); isSt && st.Addr == ssa.Value(al) {
+							if m, isM := st.Val.(*ssa.MakeChan); isM {
+								made = m
+							}
+						}
+					}
+				}
+				if made != nil && !inner.blocks[made.Block().Index] {
+					okOwn = false
+					posOwn = p.Pos(made.Pos())
+				}
+			}
+		}
+	}
+	c.Ob("C04.join", pkg, fk, "collector-channel-per-chunk", posOwn, okOwn, fk+": the channel made at "+posOwn+" is received from by a goroutine spawned in the chunk loop but is made outside the loop: the collectors of different chunks share it and take each other's partial sums")
 }
 
 // checkSplitJoin: the recursive split in MultiExp joins before returning.
